@@ -213,9 +213,9 @@ def roundtrip(ctx, tmp, representable):
         p_sub = 1.0
     else:
         spec = ig.spec_3d(rng, ctx.thorough, same_units=False)
-        # txt + subregions at non-representable coordinates is finding F23; a third of
-        # the cases keeps its volume well below the per-worker witness store
-        p_sub = 0.3
+        # txt + subregions at non-representable coordinates was finding F23 (repaired:
+        # known_findings.json 'fixed:' 42d3b52b) and is an ordinary case now
+        p_sub = 0.5
     dtype = gen.pick(rng, ["normal", "normal", "decades", "int"])
     f, arr, valid, labels, boxes, vkind = _make(ctx, spec, p_sub=p_sub, dtype=dtype)
     nvdim = arr.shape[-1]
@@ -228,13 +228,6 @@ def roundtrip(ctx, tmp, representable):
              "has_subregions": bool(boxes), "value_class": dtype}
     ctx.sample({"kind": "roundtrip", **what0})
     for rep in REPS:
-        if (rep == "txt" and boxes and not representable and ctx.thorough
-                and rng.random() >= 0.1):
-            # txt + subregions at non-representable coordinates is the known finding F23
-            # (no small repair); the thorough tier samples it instead of repeating it
-            # hundreds of times (per-worker witness store of the framework)
-            ctx.event("roundtrip.txt.subregions.skipped_known_F23_class")
-            continue
         fn = os.path.join(tmp, f"f_{rep}.vtk")
         what = {"representation": rep, **what0}
         try:
